@@ -68,7 +68,14 @@ func (c16) Gen(r *sim.Rand, tier string, run uint64) *sim.Scenario {
 		basePos = 1 // SetBase issued on the clone (split before the first emission)
 	}
 	if baseSet && basePos == 0 {
+		if r.Chance(1, 5) {
+			// a header remark ahead of SetBase (the listing has a line before the base directive)
+			out = append(out, genComment(r))
+		}
 		out = append(out, sim.Op{K: "setbase", N: []int64{int64(base)}})
+		if r.Chance(1, 4) {
+			split = 0 // the split directly behind SetBase
+		}
 	}
 	if basePos == 1 && r.Chance(1, 2) {
 		// the original already has a base (nothing emitted yet) and the tail re-bases, upwards
